@@ -250,6 +250,7 @@ def run(pid):
         states=max(states, 1), transitions=max(transitions, 1), traces_validated_against_impl=stats["validated"],
         samples=stats["samples"], exhaustive=exhaustive and total_hist == len(maximal), configs=ev, operations=stats["ops"],
         drift_traces=stats["drift"], drift_kinds=stats["drift_kinds"], monitors=MON[pid], known_findings_seen=sorted(verdict.known_seen),
+        binding_selftest=stats.get("selftest"),
         rule="scenarios = maximal histories over the explored edges of the Orch model (+ cancel/late to quiescence + probe calls)"
              + ("; plus one keygen and one signing session for every (membership map, participant set) enumerated by TLC" if pid == "C06" else ""),
     ), ["one real threshold.Scheme; peers are played by the stub synchroniser and the scripted back end (their real counterparts: C07, C01/C05)",
@@ -294,7 +295,54 @@ def execute(pid, scenarios, wd, verdict):
                           dict(property=pid, monitor=o["mon"], scenario=sc, line=o["l"], observations=[
                               {k: v for k, v in e.items() if k in ("e", "c", "kind", "topic", "label", "got", "res", "detail", "tables", "onmsg", "synch", "sends", "panic", "initp", "from", "to")}
                               for e in lines_by_t.get(o["t"], [])]))
-    return dict(validated=len(ends), drift=sum(drift.values()), drift_kinds=drift, ops=sum(len(s["ops"]) for s in scenarios),
+    st_res = "thorough tier only"
+    if vlib.tier() == "thorough" and not verdict.violations and scenarios:
+        def c_res(evs):
+            for e in evs:
+                if e["e"] == "step" and e.get("probe") == "end" and e["res"] == "ok":
+                    e["res"] = "err"
+                    return True
+            return False
+
+        def c_table(evs):
+            for e in evs:
+                if e["e"] == "call" and e["got"] == "s1":
+                    e["tables"]["syncs"] = []
+                    return True
+            return False
+
+        def c_init(evs):
+            for e in evs:
+                if e["e"] == "step" and e.get("label") == "s1" and e["got"] == "s2" and e["initp"]:
+                    e["initp"] = list(reversed(e["initp"]))
+                    return len(e["initp"]) > 1
+            return False
+
+        def c_refused(evs):
+            for e in evs:
+                if e["e"] == "call" and e["res"] == "refused":
+                    e["res"], e["got"] = "none", "s1"
+                    return True
+            return False
+
+        def validate(path):
+            consts2 = dict(Calls=list(range(1, 9)), Kinds=KINDS, Plans=[P()], Injects=INJECTS[:1], Participants=PARTICIPANTS, MaxOps=0)
+            mod2 = write_mc(wd, "orchst", consts2, trace=os.path.basename(path))
+            r2 = vlib.run_tlc(mod2, mod2 + ".cfg", ["Orch.tla", "OrchTrace.tla"], workdir=wd, workers=1, timeout=1500, keep_prints=["VIOL", "END"], heap="8g")
+            return sum(1 for t, _ in r2.prints if t == "VIOL"), sum(1 for t, o in r2.prints if t == "END" and o["drift"])
+
+        head = os.path.join(wd, "orch_st.ndjson")
+        with open(outfile) as fi, open(head, "w") as fo:
+            n = 0
+            for line in fi:
+                fo.write(line)
+                if '"e":"end"' in line:
+                    n += 1
+                    if n >= 300:
+                        break
+        st_res = vlib.binding_selftest("orch", head, [("result of a probe call changed", c_res), ("synchroniser table emptied in a record", c_table),
+                                                       ("Init party list reversed", c_init), ("a refused call recorded as admitted", c_refused)], validate)
+    return dict(validated=len(ends), drift=sum(drift.values()), drift_kinds=drift, ops=sum(len(s["ops"]) for s in scenarios), selftest=st_res,
                 samples=[dict(ops=[{k: v for k, v in o.items() if v not in ("", 0, "none") and k != "plan"} for o in scenarios[len(scenarios) // 2]["ops"]])] if scenarios else [dict(note="none")])
 
 
